@@ -11,6 +11,8 @@ Decided (detection and abort shape; structural):
  R4 K2  the error aborts without committing: in Transaction::commit, commit_heads is unreachable
         from the Err edge of evaluate_braid; in add_merge no self.heads mutation and no
         perspective installation is reachable from it; braid() propagates strands.push errors (`?`).
+ R5 K10 Priority's Ord is the derived one over Merge < Basic(_) < Finalize < Init (the braid pops the
+        largest key, so this is what puts a finalize command ahead of everything concurrent with it).
 Not decided: that both finalize strands are in the heap at once for every DAG shape (value-level)."""
 from rules.core import pat, rt
 from rules.core.facts import Operand, Place
@@ -128,3 +130,19 @@ def run(F, rep, tier):
         ok = e is not None and not muts and not inst
     rep.check(ok, "add_merge|no-state-change-after-braid-error", "K2 err-edge action",
               "no self.heads mutation / perspective installation is reachable from evaluate_braid's Err edge", site=am.site())
+    priority_order_rule(F, rep)
+
+
+def priority_order_rule(F, rep):
+    """R5: the braid pops the *largest* key first (Strand's Ord is the reversed key comparison, C01-R3), so
+    'a finalize command comes before everything concurrent with it' needs Finalize to compare above Basic(_)
+    and Merge, and below only Init: Priority's Ord must be the derived one over this declaration order."""
+    a = F.adt("aranya_runtime::command::Priority")
+    names = [v["name"] for v in a["variants"]] if a else []
+    imps = {i["trait"]: i for i in F.impls_of("command::Priority")}
+    derived = all(t in imps and imps[t].get("derived") for t in ("core::cmp::Ord", "core::cmp::PartialOrd", "core::cmp::PartialEq"))
+    ok = derived and names == sorted(names, key=lambda n: ["Merge", "Basic", "Finalize", "Init"].index(n) if n in ("Merge", "Basic", "Finalize", "Init") else 99) \
+        and {"Merge", "Basic", "Finalize", "Init"} <= set(names) and names.index("Basic") < names.index("Finalize") < names.index("Init") and names.index("Merge") < names.index("Basic")
+    rep.check(ok, "Priority|derived-order-Merge<Basic<Finalize<Init", "K10 type fact",
+              "Priority derives Ord/PartialOrd/PartialEq over the declaration order %s" % names,
+              "Priority's ordering is no longer the derived order Merge < Basic(_) < Finalize < Init (declared %s, derived Ord: %s): finalize commands would not be braided ahead of the commands concurrent with them" % (names, derived))
